@@ -169,6 +169,28 @@ def run(ctx):
                         nb = [site.bb for site, st in dec.assigns() if st["place"]["l"] == 0 and st["rv"]["k"] == "agg" and st["rv"].get("variant") == "None"]
                         if any(dec.edge_guards(bad_edge, b) for b in nb):
                             guard = True
+            # or: the two pieces are taken from the iterator itself, `pieces.next()?` twice - the first is the right part
+            # (rsplitn walks from the back), the second the left part; a missing piece returns None through the `?`
+            nexts = []
+            for c_ in dec.calls(re.compile(r"Iterator>?::next$")):
+                rsrc, _, _ = origins(dec, c_.node["args"][0], stop_calls=[r"::rsplitn$"])
+                if any(o.kind == "call" and o.what.endswith("::rsplitn") and o.site is not None and o.site.bb == rs[0].bb for o in rsrc):
+                    nexts.append(c_)
+            iter_form = False
+            if not guard and len(nexts) == 2:
+                a_, b_ = nexts
+                if dec.dominates(b_.bb, a_.bb) and not dec.dominates(a_.bb, b_.bb):
+                    a_, b_ = b_, a_
+                both_q = True
+                for c_ in (a_, b_):
+                    br = [x for x in dec.calls(re.compile(r"Try>::branch$")) if op_local(dec.resolve_copy(x.node["args"][0])) == c_.node["dest"]["l"]]
+                    if not br:
+                        both_q = False
+                if dec.dominates(a_.bb, b_.bb) and both_q:
+                    iter_form = True
+                    guard = True
+                    NEXT_RIGHT, NEXT_LEFT = a_, b_
+                    LEFT = RIGHT = r"(?:ref\()*branch\(next\((?:ref\()*rsplitn\(.*?\)\)+ as Continue\.0\)*"
             if guard:
                 ctx.ok("C25.2", FD, "returns None unless the split produced exactly 2 parts", dec.relfile, dec.line)
             else:
@@ -200,6 +222,26 @@ def run(ctx):
             return re.sub(r"\?([A-Za-z0-9_:]+)", rep, txt)
         shn = unconst(sh)
         mt = re.match(r"^\((?:to_string|to_owned|from|into)\((?:ref\()*(?:branch\(strip_prefix\(" + LEFT + r", '(.*?)'\)\) as Continue\.0|strip_prefix\(" + LEFT + r", '(.*?)'\) as Some\.0)\)*\)*, (.*)\)$", shn)
+        if mt and locals().get("iter_form"):
+            # which piece is which is decided by the order of the two next() calls, which the expression text cannot show
+            tsrc, _, _ = origins(dec, ret[1]["rv"]["ops"][0], stop_calls=[r"Iterator>?::next$"], follow_all_calls=True)
+            nsrc, _, _ = origins(dec, ret[1]["rv"]["ops"][1] if len(ret[1]["rv"]["ops"]) > 1 else ret[1]["rv"]["ops"][0], stop_calls=[r"Iterator>?::next$"], follow_all_calls=True)
+            tn = {(o.site.bb, o.site.idx) for o in tsrc if o.kind == "call" and o.what.endswith("::next") and o.site is not None}
+            nn = {(o.site.bb, o.site.idx) for o in nsrc if o.kind == "call" and o.what.endswith("::next") and o.site is not None}
+            tup = strip_refs(expr(dec, ret[1]["rv"]["ops"][0]))
+            if True:
+                # the returned value is one tuple operand: slice its two components
+                d_ = dec.def_rvalue(op_local(dec.resolve_copy(ret[1]["rv"]["ops"][0])))
+                if d_ and d_[0] == "rv" and d_[1]["k"] == "agg" and len(d_[1]["ops"]) == 2:
+                    tsrc, _, _ = origins(dec, d_[1]["ops"][0], stop_calls=[r"Iterator>?::next$"], follow_all_calls=True)
+                    nsrc, _, _ = origins(dec, d_[1]["ops"][1], stop_calls=[r"Iterator>?::next$"], follow_all_calls=True)
+                    tn = {(o.site.bb, o.site.idx) for o in tsrc if o.kind == "call" and o.what.endswith("::next") and o.site is not None}
+                    nn = {(o.site.bb, o.site.idx) for o in nsrc if o.kind == "call" and o.what.endswith("::next") and o.site is not None}
+            if tn != {(NEXT_LEFT.bb, NEXT_LEFT.idx)} or nn != {(NEXT_RIGHT.bb, NEXT_RIGHT.idx)}:
+                mt = None
+                ctx.violate("C25.2", FD, "decoder-pieces-swapped", dec.relfile, ret[0].line,
+                            "rsplitn yields the right-most piece first: the topic must come from the second next() and the segment number from the first")
+                shn = ""
         if mt:
             Pd = mt.group(1) if mt.group(1) is not None else mt.group(2)
             ctx.ok("C25.2", FD, "topic = left part with the prefix %r removed exactly once (strip_prefix)" % Pd, dec.relfile, ret[0].line)
